@@ -516,6 +516,51 @@ def snippet(what, spec, data, bad=()):
 
 
 
+
+# ---------------------------------------------------------------------------------------------
+# which lowering functions and which raw op defaults the cases execute (reported in the evidence)
+# ---------------------------------------------------------------------------------------------
+
+import sys as _sys
+import contextlib as _contextlib
+
+COVERAGE = {"lower": {}, "raw_ops": {}}
+
+
+@_contextlib.contextmanager
+def covered():
+    """Record every function of funsor/compiler.py and funsor/ops/{builtin,array}.py entered inside the block."""
+    def prof(frame, event, arg):
+        if event == "call":
+            fnm = frame.f_code.co_filename
+            if fnm.endswith("funsor/compiler.py"):
+                d = COVERAGE["lower"]
+            elif fnm.endswith("funsor/ops/builtin.py") or fnm.endswith("funsor/ops/array.py"):
+                d = COVERAGE["raw_ops"]
+            else:
+                return
+            key = fnm.rsplit("/", 1)[1] + ":" + frame.f_code.co_name
+            d[key] = d.get(key, 0) + 1
+    old = _sys.getprofile()
+    _sys.setprofile(prof)
+    try:
+        yield
+    finally:
+        _sys.setprofile(old)
+
+
+def report_coverage(ctx):
+    import ast
+    from ..common import REPO
+    tree = ast.parse((REPO / "funsor" / "compiler.py").read_text())
+    lowering = [n.name for n in ast.walk(tree) if isinstance(n, ast.FunctionDef) and n.name.startswith("_lower")]
+    fired = {k.split(":")[1]: v for k, v in COVERAGE["lower"].items()}
+    ctx.extra["lowering_functions_fired"] = {nm: fired.get(nm, 0) for nm in lowering}
+    ctx.extra["lowering_functions_never_fired"] = [nm for nm in lowering if not fired.get(nm)]
+    ctx.extra["raw_op_defaults_fired"] = dict(sorted(COVERAGE["raw_ops"].items()))
+    for nm in lowering:
+        ctx.count(f"lowering:{nm}:" + ("fired" if fired.get(nm) else "NEVER-FIRED"))
+
 # ---------------------------------------------------------------------------------------------
 # extract: source-form table of OpProgram.__call__ (regenerated on every run)
 # ---------------------------------------------------------------------------------------------
@@ -720,7 +765,8 @@ def check_case(ctx, spec, data, use_driver=True, stream="clean"):
         nonfinite = any(not isinstance(oracle[i], tuple) and not np.all(np.isfinite(oracle[i])) for i in reach)
         # ---- compile -------------------------------------------------------------------------
         try:
-            program = compile_funsor(expr)
+            with covered():
+                program = compile_funsor(expr)
         except NotImplementedError as e:
             ctx.count("declined:compile" + (":batched-tensor" if batched else ""))
             ctx.case(nontrivial_key=None)
@@ -790,7 +836,8 @@ def check_case(ctx, spec, data, use_driver=True, stream="clean"):
                 return True
         for nm, fn in variants:
             try:
-                got = fn(**npd)
+                with covered():
+                    got = fn(**npd)
             except Exception as e:
                 if nm == "as_code" and isinstance(e, (ArithmeticError, ValueError)) and "math domain" in (str(e) + "math domain" * isinstance(e, ArithmeticError)):
                     # a 0-d ndarray constant is printed as a python float: math.log1p(-1.0) raises where numpy gives -inf
@@ -1007,11 +1054,17 @@ def _tup(v):
 
 def pbuild(pspec):
     built = []
-    with {"reflect": reflect, "lazy": lazy}[pspec.get("interp", "reflect")]:
+    with {"reflect": reflect, "lazy": lazy, "eager": eager}[pspec.get("interp", "reflect")]:
         for nd in pspec["nodes"]:
             k = nd[0]
             if k == "var":
                 f = Variable(nd[1], Reals[tuple(nd[2])] if nd[2] else Real)
+            elif k == "ivar":
+                f = Variable(nd[1], Bint[nd[2]])
+            elif k == "vindex":
+                env = {"slice": slice, "Ellipsis": Ellipsis}
+                env.update({nm: built[j] for nm, j in nd[3].items()})
+                f = built[nd[2]][eval(nd[1], {"__builtins__": {}}, env)]
             elif k == "num":
                 f = Number(nd[1])
             elif k == "ew":
@@ -1042,17 +1095,20 @@ import json, pickle, numpy as np
 import funsor, funsor.ops as ops
 funsor.set_backend("numpy")
 from funsor.terms import Variable, Number, Unary, Binary, Tuple
-from funsor.domains import Real, Reals
+from funsor.domains import Real, Reals, Bint
 from funsor.interpretations import reflect, lazy, eager
 from funsor.compiler import compile_funsor
 pspec = json.loads({spec!r})
-data = {{k: np.array(v, dtype=np.float64) for k, v in json.loads({data!r}).items()}}
+ivars = {{nd[1] for nd in pspec["nodes"] if nd[0] == "ivar"}}
+data = {{k: np.array(v, dtype=(np.int64 if k in ivars else np.float64)) for k, v in json.loads({data!r}).items()}}
 tup = lambda v: tuple(tup(x) for x in v) if isinstance(v, list) else v
 b = []
-with {{"reflect": reflect, "lazy": lazy}}[pspec.get("interp", "reflect")]:
+with {{"reflect": reflect, "lazy": lazy, "eager": eager}}[pspec.get("interp", "reflect")]:
     for nd in pspec["nodes"]:
         k = nd[0]
         if k == "var": f = Variable(nd[1], Reals[tuple(nd[2])] if nd[2] else Real)
+        elif k == "ivar": f = Variable(nd[1], Bint[nd[2]])
+        elif k == "vindex": f = b[nd[2]][eval(nd[1], {{"slice": slice, "Ellipsis": Ellipsis, **{{nm: b[j] for nm, j in nd[3].items()}}}})]
         elif k == "num": f = Number(nd[1])
         elif k == "ew": f = Binary(getattr(ops, nd[1]), b[nd[2]], b[nd[3]])
         elif k == "un": f = Unary(getattr(ops, nd[1]), b[nd[2]])
@@ -1093,14 +1149,16 @@ print("FAILS =", FAILS)
 
 
 def check_pcase(ctx, pspec, use_driver=True, label="param"):
-    wit = {"pspec": pspec, "data": P_DATA, "stream": label}
-    py = P_TEMPLATE.format(what=label, spec=json.dumps(pspec), data=json.dumps(P_DATA))
+    pdata = pspec.get("data", P_DATA)
+    ivars = {nd[1] for nd in pspec["nodes"] if nd[0] == "ivar"}
+    wit = {"pspec": pspec, "data": pdata, "stream": label}
+    py = P_TEMPLATE.format(what=label, spec=json.dumps(pspec), data=json.dumps(pdata))
     try:
         expr = pbuild(pspec)
     except Exception as e:
         ctx.count(f"param:skip-build:{label}:{type(e).__name__}")
         return False
-    data = {k: np.array(v, dtype=np.float64) for k, v in P_DATA.items() if k in expr.inputs}
+    data = {k: np.array(v, dtype=(np.int64 if k in ivars else np.float64)) for k, v in pdata.items() if k in expr.inputs}
     with np.errstate(all="ignore"):
         try:
             expected = extract_data(reinterpret(expr(**data)))
@@ -1115,7 +1173,8 @@ def check_pcase(ctx, pspec, use_driver=True, label="param"):
             ctx.count(f"param:skip-nonfinite:{label}")
             return False
         try:
-            program = compile_funsor(expr)
+            with covered():
+                program = compile_funsor(expr)
         except NotImplementedError:
             ctx.count(f"param:declined-compile:{label}")
             return True
@@ -1141,7 +1200,8 @@ def check_pcase(ctx, pspec, use_driver=True, label="param"):
             return True
         for nm, fn in variants:
             try:
-                got = fn(**data)
+                with covered():
+                    got = fn(**data)
             except Exception as e:
                 ctx.fail("input", f"C18.{nm}-raises", witness=wit, got=repr(e), expected=jsonable(expected), python=py)
                 return True
@@ -1277,6 +1337,16 @@ def param_stream(ctx, use_driver=True):
 
 
 def _param_stream(ctx, use_driver=True):
+    # a term outside the fragment reaches the singledispatch base `compiler._lower` and is declined
+    with reflect:
+        yv = Variable("y", Reals[2])
+        fin = ops.stack((yv, yv * 2.0))
+    try:
+        with covered():
+            compile_funsor(fin)
+        ctx.count("param:finitary-stack-compiled")
+    except NotImplementedError:
+        ctx.count("param:declined-compile:finitary-stack(_lower base)")
     for label, pspec in param_specs():
         check_pcase(ctx, pspec, use_driver, label.split("(")[0].split("[")[0])
         if any(f.witness is not None for f in ctx.failures) or ctx.infra_errors:
@@ -1407,6 +1477,84 @@ def assoc_stream(ctx, use_driver=True):
         for data in datas:
             if check_case(ctx, spec, dict(data), use_driver=use_driver, stream="assoc:" + label):
                 ctx.count("assoc-repeated-operand:" + label.split(":")[0])
+            if any(f.witness is not None for f in ctx.failures) or ctx.infra_errors:
+                return
+
+
+# ---------------------------------------------------------------------------------------------
+# funsor-valued indices (Bint inputs) at EVERY offset of inputs of rank 1-4, equal and unequal sizes, mixed with
+# slices and integer literals, chained, followed by arithmetic: the route Binary(GetitemOp(offset)) ->
+# compiler._lower_binary -> the raw default ops.getitem(lhs, rhs, offset) that only programs call
+# ---------------------------------------------------------------------------------------------
+
+def index_specs(rng):
+    import itertools
+    out = []
+    names = ["I", "J", "K", "L"]
+    for rank in (1, 2, 3, 4):
+        for shape in ([3] * rank, [2, 3, 4, 5][:rank], [4, 3, 3, 2][:rank]):
+            size = int(np.prod(shape))
+            xdata = (np.arange(size, dtype=np.float64).reshape(shape) * 0.25 - 1.0).tolist()    # all entries distinct
+            for pattern in itertools.product([0, 1], repeat=rank):
+                if not any(pattern):
+                    continue
+                for variant in ("plain", "slice", "literal", "post"):
+                    nodes = [["var", "x", shape]]
+                    parts, vmap, data = [], {}, {"x": xdata}
+                    used_variant = False
+                    eff, src = list(shape), 0
+                    if variant == "slice":
+                        # funsor refuses slices mixed with funsor indices in one subscript: slice first, then index
+                        nodes.append(["slice", "(Ellipsis, slice(0, 2, None))", 0])
+                        eff, src, used_variant = shape[:-1] + [min(2, shape[-1])], 1, True
+                    for ax, p in enumerate(pattern):
+                        if p:
+                            nm = names[ax]
+                            nodes.append(["ivar", nm.lower(), eff[ax]])
+                            vmap[nm] = len(nodes) - 1
+                            data[nm.lower()] = rng.randrange(eff[ax])
+                            parts.append(nm)
+                        elif variant == "literal" and not used_variant:
+                            parts.append(str(shape[ax] - 1)); used_variant = True
+                        else:
+                            parts.append("slice(None, None, None)")
+                    if variant in ("slice", "literal") and not used_variant:
+                        continue
+                    while parts and parts[-1] == "slice(None, None, None)":
+                        parts.pop()                                   # x[:, i] rather than x[:, i, :]
+                    ix = "(" + ", ".join(parts) + ("," if len(parts) == 1 else "") + ")"
+                    nodes.append(["vindex", ix, src, vmap])
+                    r = len(nodes) - 1
+                    if variant == "post":
+                        nodes += [["num", 1.5], ["ew", "mul", r, len(nodes)], ["un", "exp", r], ["ew", "add", len(nodes) + 1, len(nodes) + 2],
+                                  ["tuple", [len(nodes) + 3, r]]]
+                    out.append((f"rank{rank}", {"nodes": nodes, "root": len(nodes) - 1, "interp": rng.choice(["reflect", "eager", "lazy"]),
+                                                "data": data}))
+    # chained indexing and matmul after indexing (the seeded demo's shapes)
+    for shape in ([3, 3, 4], [2, 3, 4]):
+        xdata = (np.arange(int(np.prod(shape)), dtype=np.float64).reshape(shape) * 0.25 - 1.0).tolist()
+        base = [["var", "x", shape], ["ivar", "i", shape[0]], ["ivar", "k", shape[2]], ["var", "w", [shape[1]]], ["ivar", "j", shape[1]]]
+        data = {"x": xdata, "i": rng.randrange(shape[0]), "k": rng.randrange(shape[2]), "j": rng.randrange(shape[1]),
+                "w": [0.5, -1.0, 2.0][:shape[1]]}
+        forms = [
+            [["vindex", "(slice(None, None, None), slice(None, None, None), K)", 0, {"K": 2}], ["ew", "matmul", 5, 3], ["num", 1.0], ["ew", "add", 6, 7]],
+            [["vindex", "(I,)", 0, {"I": 1}], ["vindex", "(slice(None, None, None), K)", 5, {"K": 2}], ["un", "exp", 6], ["ew", "mul", 7, 3]],
+            [["vindex", "(slice(None, None, None), J, K)", 0, {"J": 4, "K": 2}]],
+            [["vindex", "(slice(None, None, None), slice(None, None, None), K)", 0, {"K": 2}], ["vindex", "(slice(None, None, None), J)", 5, {"J": 4}]],
+            [["vindex", "(Ellipsis, K)", 0, {"K": 2}], ["vindex", "(I,)", 5, {"I": 1}], ["tuple", [6, 5]]],
+        ]
+        for extra in forms:
+            nodes = base + extra
+            out.append(("chained", {"nodes": nodes, "root": len(nodes) - 1, "interp": "eager", "data": data}))
+    return out
+
+
+def index_stream(ctx, use_driver=True):
+    import warnings
+    with warnings.catch_warnings():
+        warnings.simplefilter("ignore")
+        for label, pspec in index_specs(ctx.rng):
+            check_pcase(ctx, pspec, use_driver, "index-" + label)
             if any(f.witness is not None for f in ctx.failures) or ctx.infra_errors:
                 return
 
@@ -2073,6 +2221,8 @@ def correspond(ctx):
         if ctx.failures or ctx.infra_errors:
             break
     if not (ctx.failures or ctx.infra_errors):
+        index_stream(ctx)
+    if not (ctx.failures or ctx.infra_errors):
         assoc_stream(ctx)
     if not (ctx.failures or ctx.infra_errors):
         history_stream(ctx)
@@ -2089,6 +2239,7 @@ def correspond(ctx):
         if ctx.failures or ctx.infra_errors:
             break
         check_trace(ctx, gen_trace_spec(rng, ctx.tier))
+    report_coverage(ctx)
     ctx.assumptions.append("program vs expression are compared exactly (same numpy calls) — 1e-12 when a transcendental "
                            "op occurs; Lean rationals vs numpy floats with rel 1e-9 (float products are inexact)")
     ctx.assumptions.append("numpy ops themselves are not modelled: the Lean value type interprets neg/abs/add/sub/mul/"
@@ -2120,6 +2271,9 @@ def search(ctx, broken):
         check_trace(ctx, gen_trace_spec(rng, "thorough"), use_driver=False)
         if have():
             return
+    index_stream(ctx, use_driver=False)
+    if have():
+        return
     assoc_stream(ctx, use_driver=False)
     if have():
         return
